@@ -488,6 +488,7 @@ class WsgiApplication(HttpBase):
         except Exception as e:
             logger.exception(e)
             p_ctx.out_error = Fault('Server', get_fault_string_from_exception(e))
+            p_ctx.transport.resp_code = None
             return self.handle_error(p_ctx, others, p_ctx.out_error,
                                                                  start_response)
 
